@@ -244,35 +244,25 @@ impl Scenario for Entropy {
                 rec.sample(|| format!("{} g={} mode={} calls={} first ephemerals={:?}", name, g.name(), mode, all.len(), all.first().map(|x| x.2.iter().map(|(l, b)| format!("{}={}", l, short(b))).collect::<Vec<_>>())));
             }
             "marathon" => {
-                let prev = seams::set_entropy(Some(Xo::derive(plan.seed, &[0xD44])));
-                // (128-bit digest of label and value, call number): 24 bytes per exposed value instead of the value itself
-                let mut seen: Vec<(u128, u32)> = Vec::with_capacity(n + 8);
-                for i in 0..n {
-                    match call_once(rec, lib, g, op, &fx) {
-                        Ok(e) => {
-                            for (l, b) in e {
-                                let mut h = <sha2::Sha256 as sha2::Digest>::new();
-                                sha2::Digest::update(&mut h, l.as_bytes());
-                                sha2::Digest::update(&mut h, &b);
-                                let d = sha2::Digest::finalize(h);
-                                seen.push((u128::from_le_bytes(d[..16].try_into().unwrap()), i as u32));
-                            }
-                        }
-                        Err(e) => {
-                            rec.expect("C20", "randomized-call-succeeds", false, || format!("{} | {}", name, e));
-                            break;
-                        }
+                // in a process of its own: this one runs other simulations on other threads, and a process-wide
+                // counter raced by them would make the outcome depend on real scheduling
+                let exe = std::env::current_exe().unwrap();
+                let dev = Xo::derive(plan.seed, &[0xD44]).next();
+                let o = std::process::Command::new(&exe)
+                    .args(["entropy-child", &dev.to_string(), &plan.get("g").to_string(), &plan.get("entry").to_string(), &plan.get("scheme").to_string(), &n.to_string(), "marathon"])
+                    .output();
+                match o {
+                    Ok(o) if o.status.success() => {
+                        let out = String::from_utf8_lossy(&o.stdout).to_string();
+                        rec.stats.lib_calls += n as u64 + 12;
+                        rec.probe("long-call-history-checked");
+                        let ok = out.starts_with("OK");
+                        rec.expect("C20", "ephemerals-never-repeat", ok, || format!("{} value | one process, thread 0 makes {} calls, threads 1 and 2 start later [marathon] g={}: {}", name, n, g.name(), out.trim()));
+                        rec.sample(|| format!("{} g={} mode=marathon calls={}+12 in a child process: {}", name, g.name(), n, out.trim()));
                     }
+                    Ok(o) => rec.note(format!("marathon child failed: {}", String::from_utf8_lossy(&o.stderr))),
+                    Err(e) => rec.note(format!("cannot spawn marathon child: {}", e)),
                 }
-                seams::set_entropy(prev);
-                seen.sort_unstable();
-                let dup = seen.windows(2).find(|w| w[0].0 == w[1].0).map(|w| (w[0].1, w[1].1));
-                rec.probe("long-call-history-checked");
-                rec.expect("C20", "ephemerals-never-repeat", dup.is_none(), || {
-                    let (a, b) = dup.unwrap();
-                    format!("{} value | across one call history of {} calls on one thread [marathon] g={}: call #{} and call #{} expose the same value", name, n, g.name(), a, b)
-                });
-                rec.sample(|| format!("{} g={} mode=marathon calls={} exposed values={}", name, g.name(), n, seen.len()));
             }
             "mixed" => {
                 // all entry points interleaved on one thread; every exposed value is compared with every other of the
@@ -391,6 +381,62 @@ impl Scenario for Entropy {
 const POS_LABEL: [&str; 4] = ["field-0", "field-1", "field-2", "field-3"];
 
 /// `blsim entropy-child <device-seed|off> <g> <entry> <scheme> <n>` — prints one line of hex ephemerals per call
+/// A process of its own (nothing else in it draws randomness): thread A makes `n` calls, then a new thread B makes
+/// four, then A four more, then a new thread C four. Every exposed value of every call is compared with every
+/// other, whatever thread it came from. Prints `DUP ...` for the first repeated value, `OK <values>` otherwise.
+fn marathon_child(lib: &'static dyn Lib, g: Grp, op: Op, fx: &Fixture, n: usize, dev: u64) -> i32 {
+    fn digest(b: &[u8]) -> u128 {
+        let d = <sha2::Sha256 as sha2::Digest>::digest(b);
+        u128::from_le_bytes(d[..16].try_into().unwrap())
+    }
+    let mut seen: Vec<(u128, u8, u32)> = Vec::with_capacity(n + 64);
+    let mut rec = Rec::new("C20");
+    let mut run_a = |seen: &mut Vec<(u128, u8, u32)>, from: usize, count: usize, rec: &mut Rec| -> Result<(), String> {
+        for i in from..from + count {
+            for (_, b) in call_once(rec, lib, g, op, fx)? {
+                seen.push((digest(&b), 0, i as u32));
+            }
+        }
+        Ok(())
+    };
+    let other = |lane: u8| -> Result<Vec<(u128, u8, u32)>, String> {
+        std::thread::scope(|s| {
+            s.spawn(move || {
+                let _ = std::collections::hash_map::RandomState::new();
+                seams::set_entropy(Some(Xo::derive(dev, &[0xD45, lane as u64])));
+                seams::set_clock_ns(Some(EPOCH_NS + 1_000_000_007));
+                let mut r = Rec::new("C20");
+                let mut out = vec![];
+                for i in 0..4u32 {
+                    for (_, b) in call_once(&mut r, lib, g, op, fx)? {
+                        out.push((digest(&b), lane, i));
+                    }
+                }
+                Ok(out)
+            })
+            .join()
+            .unwrap_or_else(|_| Err("thread panicked".into()))
+        })
+    };
+    let r = (|| -> Result<(), String> {
+        run_a(&mut seen, 0, n, &mut rec)?;
+        seen.extend(other(1)?);
+        run_a(&mut seen, n, 4, &mut rec)?;
+        seen.extend(other(2)?);
+        Ok(())
+    })();
+    if let Err(e) = r {
+        eprintln!("{}", e);
+        return 2;
+    }
+    seen.sort_unstable();
+    match seen.windows(2).find(|w| w[0].0 == w[1].0) {
+        Some(w) => println!("DUP thread {} call #{} and thread {} call #{} expose the same value", w[0].1, w[0].2, w[1].1, w[1].2),
+        None => println!("OK {}", seen.len()),
+    }
+    0
+}
+
 pub fn child_main(args: &[String]) -> i32 {
     let env = crate::env::env();
     let g = grp_of(args[1].parse().unwrap_or(0));
@@ -402,6 +448,9 @@ pub fn child_main(args: &[String]) -> i32 {
     if args[0] != "off" {
         seams::set_entropy(Some(Xo::new(args[0].parse().unwrap_or(1))));
         seams::set_clock_ns(Some(EPOCH_NS + 1_000_000_007));
+    }
+    if args.get(5).map(|s| s.as_str()) == Some("marathon") {
+        return marathon_child(env.cur, g, op, &fx, n, args[0].parse().unwrap_or(1));
     }
     for _ in 0..n {
         match call_once(&mut rec, env.cur, g, op, &fx) {
